@@ -1277,8 +1277,8 @@ Section Origins.
   Lemma resolvers_In tn n : In n (resolvers_of ts tn) <-> exists t, In t ts /\ t_name t = n /\ In tn (t_impl t).
   Proof.
     unfold resolvers_of. rewrite in_map_iff. split.
-    - intros [t [E H]]. apply filter_In in H. destruct H as [H1 H2]. apply sort_types_In in H1.
-      apply mem_In in H2. eauto.
+    - intros [t [E H]]. apply filter_In in H. destruct H as [H1 H2]. apply (proj1 (sort_types_In _ _)) in H1.
+      apply (proj1 (mem_In _ _)) in H2. eauto.
     - intros [t [H1 [E H2]]]. exists t. split; [exact E|]. apply filter_In. split.
       + now apply sort_types_In.
       + now apply mem_In.
@@ -1328,3 +1328,484 @@ Section Origins.
         * assert (t = defn) by (now apply (name_inj ts U)). subst t.
           exfalso. apply (R i). apply contribs_In. eauto.
   Qed.
+
+  Lemma req_entry done origins queue req t : Inv done origins queue req -> In t ts ->
+    exists rem, In (t_name t, rem) req.
+  Proof.
+    intros I Ht. assert (H : In (t_name t) (map fst req)).
+    { rewrite (i_keys _ _ _ _ I). apply sorted_names_In. now exists t. }
+    apply in_map_iff in H. destruct H as [[k v] [E H]]. cbn in E. subst k. eauto.
+  Qed.
+  Lemma req_nodup done origins queue req : Inv done origins queue req -> NoDup (map fst req).
+  Proof. intros I. rewrite (i_keys _ _ _ _ I). apply sorted_names_nodup. Qed.
+
+  Lemma fo_step done origins tn q req : Inv done origins (tn :: q) req ->
+    exists defn inh oo qr,
+      find_type tn ts = Some defn /\ inherited_origins ts origins defn = Ok inh /\
+      own_origins tn defn inh origins = Ok oo /\
+      release_waiters tn (resolvers_of ts tn) q req = Ok qr /\
+      Inv (done ++ [tn]) (snd oo) (fst qr) (snd qr).
+  Proof.
+    intros I.
+    pose proof (req_nodup _ _ _ _ I) as Nk.
+    (* 1. tn is a defined type *)
+    assert (Htn : In tn (done ++ tn :: q)) by (apply in_or_app; right; now left).
+    destruct (i_names _ _ _ _ I tn Htn) as [defn [Hd En]].
+    assert (Ef : find_type tn ts = Some defn) by (apply (find_defines ts U); now split).
+    (* 2. all its defined parents are done *)
+    destruct (req_entry _ _ _ _ defn I Hd) as [rem0 Hrem0]. rewrite En in Hrem0.
+    assert (Erem0 : rem0 = []) by (now apply (i_ready _ _ _ _ I tn rem0 Hrem0)). subst rem0.
+    assert (Hpar : forall x, parent_of defn x -> In x done).
+    { intros x Hx. destruct (i_req _ _ _ _ I tn [] Hrem0) as [t [Ht [Et Hx']]].
+      assert (t = defn) by (apply (name_inj ts U); congruence). subst t.
+      destruct (in_dec string_dec x done) as [H|H]; [exact H|]. exfalso. apply (Hx' x). now split. }
+    (* 3. tn is not done yet *)
+    assert (Hnd : ~ In tn done).
+    { pose proof (i_nodup _ _ _ _ I) as N. apply NoDup_remove_2 in N. intros H. apply N. apply in_or_app. now left. }
+    assert (Hnone : forall fn, omap_get (tn, fn) origins = None).
+    { intros fn. destruct (omap_get (tn, fn) origins) eqn:E; [|reflexivity].
+      exfalso. apply Hnd. apply (i_org_keys _ _ _ _ I tn fn). congruence. }
+    (* 4. inherited origins *)
+    destruct (inherited_spec origins defn) as [inh [Einh R]].
+    { intros i fn Hc. apply contribs_In in Hc. destruct Hc as [Hi [it [[Hit Eit] Hfi]]].
+      assert (Hdone : In i done). { apply Hpar. split; [exact Hi | now exists it]. }
+      destruct (omap_get (i, fn) origins) as [po|] eqn:Eo.
+      - exists po. split; [reflexivity|]. apply (i_org _ _ _ _ I). now apply omap_get_In.
+      - exfalso. apply (proj2 (i_org_keys _ _ _ _ I i fn)); [|exact Eo]. split; [exact Hdone|]. exists it. auto. }
+    (* 5. own origins *)
+    destruct (own_spec tn defn inh origins) as [inh' [org [Eown [Pget Pin]]]].
+    { now apply U. } { exact Hnone. }
+    (* 6. waiters *)
+    pose proof (release_closed tn (resolvers_of ts tn) q req Nk (resolvers_nodup tn)) as Erel.
+    rewrite Erel.
+    2:{ intros n Hn. rewrite (i_keys _ _ _ _ I). apply sorted_names_In. apply resolvers_In in Hn.
+        destruct Hn as [t [Ht [E _]]]. now exists t. }
+    exists defn, inh, (inh', org). eexists. split; [exact Ef|]. split; [exact Einh|]. split; [exact Eown|].
+    split; [reflexivity|]. cbn [fst snd].
+    set (W := resolvers_of ts tn). set (new := filter (rel_push tn req) W).
+    assert (Hnew : forall n, In n new <->
+              In n W /\ exists rem, In (n, rem) req /\ In tn rem /\ sset_remove tn rem = []).
+    { intros n. unfold new. rewrite filter_In. unfold rel_push. split.
+      - intros [Hw H]. split; [exact Hw|]. destruct (smap_get n req) as [rem|] eqn:Er; [|discriminate].
+        apply andb_true_iff in H. destruct H as [H1 H2]. exists rem. split; [now apply smap_get_In|].
+        split; [now apply mem_In|]. destruct (sset_remove tn rem); [reflexivity | discriminate].
+      - intros [Hw [rem [Hr [H1 H2]]]]. split; [exact Hw|]. rewrite (nodup_keys_get req n rem Nk Hr).
+        apply (proj2 (mem_In _ _)) in H1. now rewrite H1, H2. }
+    assert (Hnew_fresh : forall n, In n new -> ~ In n (done ++ tn :: q)).
+    { intros n Hn Hold. apply Hnew in Hn. destruct Hn as [_ [rem [Hr [H1 _]]]].
+      apply (i_ready _ _ _ _ I n rem Hr) in Hold. subst rem. destruct H1. }
+    assert (Hupd : forall n rem', In (n, rem') (map (rel_upd tn W) req) <->
+              exists rem, In (n, rem) req /\ rem' = if mem n W then sset_remove tn rem else rem).
+    { intros n rem'. rewrite in_map_iff. unfold rel_upd. split.
+      - intros [[k v] [E H]]. cbn [fst snd] in E. injection E as <- <-. eauto.
+      - intros [rem [H ->]]. exists (n, rem). auto. }
+    constructor.
+    - (* nodup *)
+      rewrite <- app_assoc. cbn [app]. rewrite app_comm_cons, app_assoc. apply NoDup_app_intro.
+      + exact (i_nodup _ _ _ _ I).
+      + unfold new. apply NoDup_filter. apply resolvers_nodup.
+      + intros x Hx Hn. exact (Hnew_fresh x Hn Hx).
+    - (* names *)
+      intros n Hn. rewrite <- app_assoc in Hn. cbn [app] in Hn. rewrite app_comm_cons, app_assoc in Hn.
+      apply in_app_or in Hn. destruct Hn as [Hn|Hn]; [exact (i_names _ _ _ _ I n Hn)|].
+      apply Hnew in Hn. destruct Hn as [Hw _]. apply resolvers_In in Hw. destruct Hw as [t [Ht [E _]]]. now exists t.
+    - (* keys *)
+      rewrite map_map. cbn [rel_upd fst]. exact (i_keys _ _ _ _ I).
+    - (* req *)
+      intros n rem' Hr. apply Hupd in Hr. destruct Hr as [rem [Hr ->]].
+      destruct (i_req _ _ _ _ I n rem Hr) as [t [Ht [Et Hx]]]. exists t. split; [exact Ht|]. split; [exact Et|].
+      intros x. destruct (mem n W) eqn:Ew.
+      + rewrite In_sset_remove, Hx, in_app_iff. cbn [In]. intuition.
+      + rewrite Hx, in_app_iff. cbn [In]. split; [|intuition].
+        intros [Hp Hnx]. split; [exact Hp|]. intros [H|[H|[]]]; [contradiction|]. subst x.
+        apply mem_false in Ew. apply Ew. apply resolvers_In. exists t. destruct Hp. auto.
+    - (* ready *)
+      intros n rem' Hr. apply Hupd in Hr. destruct Hr as [rem [Hr ->]].
+      pose proof (i_ready _ _ _ _ I n rem Hr) as Hold.
+      assert (Hset : In n ((done ++ [tn]) ++ q ++ new) <-> In n (done ++ tn :: q) \/ In n new).
+      { rewrite !in_app_iff. cbn [In]. tauto. }
+      rewrite Hset. destruct rem as [|r0 rem].
+      + assert (Ho : In n (done ++ tn :: q)) by now apply Hold.
+        split; [intros _; now destruct (mem n W) | intros _; now left].
+      + split.
+        * intros [Ho|Hn]; [apply Hold in Ho; discriminate|].
+          apply Hnew in Hn. destruct Hn as [Hw [rem2 [Hr2 [_ H2]]]].
+          rewrite (nodup_keys_unique req n _ _ Nk Hr Hr2). apply (proj2 (mem_In _ _)) in Hw. now rewrite Hw.
+        * intros H. right. destruct (mem n W) eqn:Ew; [|discriminate]. apply Hnew. split; [now apply mem_In|].
+          exists (r0 :: rem). split; [exact Hr|]. split; [|exact H]. apply sset_remove_nil_in; [discriminate | exact H].
+    - (* order *)
+      intros pre tn' post E t x Ht Et Hp. destruct post as [|y post] using rev_ind.
+      + apply app_inj_tail in E. destruct E as [<- <-]. apply Hpar.
+        assert (t = defn) by (apply (name_inj ts U); congruence). now subst t.
+      + clear IHpost. rewrite app_comm_cons, app_assoc in E. apply app_inj_tail in E. destruct E as [E _].
+        exact (i_order _ _ _ _ I pre tn' post E t x Ht Et Hp).
+    - (* origin keys *)
+      intros tn' fn. rewrite Pget. cbn [fst snd]. rewrite in_app_iff. cbn [In].
+      destruct (String.eqb_spec tn' tn) as [->|Nt]; cbn [andb].
+      + destruct (mem fn (map f_name (t_fields defn))) eqn:Em.
+        * split; [intros _ | discriminate]. split; [auto|]. exists defn. split; [exact Hd|]. split; [exact En|].
+          now apply has_field_mem.
+        * rewrite Hnone. split; [congruence|]. intros [_ [t [Ht [Et Hf]]]]. exfalso.
+          assert (t = defn) by (apply (name_inj ts U); congruence). subst t.
+          apply has_field_mem in Hf. congruence.
+      + rewrite (i_org_keys _ _ _ _ I tn' fn). split; [intros [H1 H2]; auto | intros [[H1|[H1|[]]] H2]; [auto | congruence]].
+    - (* origin representation *)
+      intros tn' fn o Ho. apply Pin in Ho. destruct Ho as [Ho|[fn' [Hfn [= -> -> ->]]]].
+      + exact (i_org _ _ _ _ I tn' fn o Ho).
+      + rewrite <- En. apply own_orepr; [exact Hd | | exact R]. apply has_field_mem. now apply mem_In.
+  Qed.
+
+  (* ---------- the initial state ---------- *)
+  Lemma req0_In n rem : In (n, rem) (required_resolutions ts) <->
+    exists t, In t ts /\ t_name t = n /\ rem = sset_of (filter (fun x => has_type x ts) (t_impl t)).
+  Proof.
+    unfold required_resolutions. rewrite in_map_iff. split.
+    - intros [t [[= <- <-] Ht]]. exists t. split; [now apply (proj1 (sort_types_In _ _))|]. auto.
+    - intros [t [Ht [<- ->]]]. exists t. split; [reflexivity | now apply sort_types_In].
+  Qed.
+
+  Lemma inv_init : Inv [] [] (initial_queue ts) (required_resolutions ts).
+  Proof.
+    assert (Keys : map fst (required_resolutions ts) = map t_name (sort_types ts)).
+    { unfold required_resolutions. rewrite map_map. reflexivity. }
+    assert (Nk : NoDup (map fst (required_resolutions ts))) by (rewrite Keys; apply sorted_names_nodup).
+    constructor; cbn [app].
+    - unfold initial_queue. apply NoDup_map_filter. exact Nk.
+    - intros n Hn. unfold initial_queue in Hn. apply in_map_iff in Hn. destruct Hn as [[k v] [E H]].
+      apply filter_In in H. destruct H as [H _]. cbn in E. subst k. apply req0_In in H.
+      destruct H as [t [Ht [Et _]]]. now exists t.
+    - exact Keys.
+    - intros n rem H. apply req0_In in H. destruct H as [t [Ht [Et ->]]]. exists t. split; [exact Ht|].
+      split; [exact Et|]. intros x. rewrite In_sset_of, filter_In, has_type_In, <- defined_iff.
+      unfold parent_of. cbn [In]. tauto.
+    - intros n rem H. unfold initial_queue. rewrite in_map_iff. split.
+      + intros [[k v] [E H1]]. apply filter_In in H1. destruct H1 as [H1 H2]. cbn in E, H2. subst k.
+        rewrite (nodup_keys_unique _ n _ _ Nk H H1). now destruct v.
+      + intros ->. exists (n, []). split; [reflexivity|]. apply filter_In. auto.
+    - intros pre tn post E. destruct pre; discriminate.
+    - intros tn fn. cbn. split; [congruence | intros [[] _]].
+    - intros tn fn o [].
+  Qed.
+
+  (* ---------- the loop ---------- *)
+  Lemma inv_length done origins queue req : Inv done origins queue req ->
+    List.length done + List.length queue <= List.length ts.
+  Proof.
+    intros I. rewrite <- app_length, <- (map_length t_name ts). apply NoDup_incl_length.
+    - exact (i_nodup _ _ _ _ I).
+    - intros n Hn. apply defined_iff. exact (i_names _ _ _ _ I n Hn).
+  Qed.
+
+  Lemma fo_loop_spec fuel : forall done origins queue req,
+    Inv done origins queue req -> List.length ts + 1 <= fuel + List.length done ->
+    exists done' origins' req', fo_loop fuel ts origins queue req = Ok (origins', req') /\
+                                Inv done' origins' [] req'.
+  Proof.
+    induction fuel as [|fuel IH]; intros done origins queue req I Hf.
+    - pose proof (inv_length _ _ _ _ I). cbn in Hf. lia.
+    - cbn [fo_loop]. destruct queue as [|tn q]; [eauto|].
+      destruct (fo_step _ _ _ _ _ I) as [defn [inh [oo [qr [E1 [E2 [E3 [E4 I']]]]]]]].
+      rewrite E1, E2. cbn [bind]. rewrite E3. cbn [bind]. rewrite E4. cbn [bind].
+      apply (IH _ _ _ _ I'). rewrite app_length. cbn. lia.
+  Qed.
+
+  (* ---------- the outcome ---------- *)
+  Fixpoint idx (n : string) (l : list string) : nat :=
+    match l with
+    | [] => O
+    | x :: r => if String.eqb x n then O else S (idx n r)
+    end.
+  Lemma idx_in_prefix n pre r : In n pre -> idx n (pre ++ r) < List.length pre.
+  Proof.
+    induction pre as [|x pre IH]; intros H; [destruct H|]. cbn.
+    destruct (String.eqb_spec x n) as [E|E]; [lia|]. destruct H as [H|H]; [contradiction|].
+    specialize (IH H). lia.
+  Qed.
+  Lemma idx_at n pre post : ~ In n pre -> idx n (pre ++ n :: post) = List.length pre.
+  Proof.
+    induction pre as [|x pre IH]; intros H; cbn; [now rewrite String.eqb_refl|].
+    destruct (String.eqb_spec x n) as [E|E]; [exfalso; apply H; now left|].
+    f_equal. apply IH. intros H1. apply H. now right.
+  Qed.
+
+  Lemma first_circular_none req : first_circular req = None <-> forall n rem, In (n, rem) req -> rem = [].
+  Proof.
+    induction req as [|[k v] req IH]; cbn; [split; [intros _ n rem [] | reflexivity]|].
+    destruct v as [|x v].
+    - rewrite IH. split; [intros H n rem [[= <- <-]|H1]; eauto | intros H n rem H1; apply (H n); now right].
+    - split; [discriminate|]. intros H. specialize (H k (x :: v) (or_introl eq_refl)). discriminate.
+  Qed.
+
+  Definition unambiguous : Prop := forall tn fn a b, origin_of ts tn fn a -> origin_of ts tn fn b -> a = b.
+
+  Lemma final_all_done done origins req : Inv done origins [] req ->
+    (first_circular req = None <-> forall t, In t ts -> In (t_name t) done).
+  Proof.
+    intros I. rewrite first_circular_none. split.
+    - intros H t Ht. destruct (req_entry _ _ _ _ t I Ht) as [rem Hr].
+      pose proof (H _ _ Hr). subst rem. apply (i_ready _ _ _ _ I) in Hr. rewrite app_nil_r in Hr. now apply Hr.
+    - intros H n rem Hr. destruct (i_req _ _ _ _ I n rem Hr) as [t [Ht [Et _]]].
+      apply (i_ready _ _ _ _ I n rem Hr). rewrite app_nil_r, <- Et. now apply H.
+  Qed.
+
+  Lemma final_acyclic done origins req : Inv done origins [] req ->
+    ((forall t, In t ts -> In (t_name t) done) <-> acyclic ts).
+  Proof.
+    intros I. split.
+    - intros H. exists (fun n => idx n done). intros t i Ht Hi Hdi.
+      destruct (in_split _ _ (H t Ht)) as [pre [post E]].
+      assert (Np : ~ In (t_name t) pre).
+      { pose proof (i_nodup _ _ _ _ I) as N. rewrite app_nil_r, E in N. apply NoDup_remove_2 in N.
+        intros H1. apply N. apply in_or_app. now left. }
+      rewrite E, idx_at by exact Np. apply idx_in_prefix.
+      apply (i_order _ _ _ _ I pre (t_name t) post E t i Ht eq_refl). now split.
+    - intros [rank Hr].
+      assert (G : forall k t, In t ts -> rank (t_name t) < k -> In (t_name t) done).
+      { induction k as [|k IHk]; intros t Ht Hk; [lia|].
+        destruct (req_entry _ _ _ _ t I Ht) as [rem Hrem].
+        assert (rem = []).
+        { destruct rem as [|x rem]; [reflexivity|]. exfalso.
+          destruct (i_req _ _ _ _ I _ _ Hrem) as [t' [Ht' [Et' Hx]]].
+          assert (t' = t) by (now apply (name_inj ts U)). subst t'.
+          destruct (proj1 (Hx x) (or_introl eq_refl)) as [[Hxi Hxd] Hnd]. apply Hnd.
+          destruct Hxd as [u [Hu Eu]]. rewrite <- Eu. apply IHk; [exact Hu|].
+          specialize (Hr t x Ht Hxi (ex_intro _ u (conj Hu Eu))). rewrite Eu. lia. }
+        subst rem. apply (i_ready _ _ _ _ I) in Hrem. rewrite app_nil_r in Hrem. now apply Hrem. }
+      intros t Ht. apply (G (S (rank (t_name t))) t Ht). lia.
+  Qed.
+
+  Lemma final_origins done origins req : Inv done origins [] req ->
+    (forall t, In t ts -> In (t_name t) done) ->
+    exists e, check_ambiguous (all_fields ts) origins = Ok e /\ (e = [] <-> unambiguous).
+  Proof.
+    intros I Hall. unfold check_ambiguous.
+    destruct (rflat_spec
+      (fun kv : okey * origin =>
+         match snd kv with
+         | Multiple anc =>
+             match omap_get (fst kv) (all_fields ts) with
+             | None => Panic site_amb_index
+             | Some f => Ok [EAmbiguous (fst (fst kv)) (snd (fst kv)) (gty_text (f_ty f)) anc]
+             end
+         | Single _ => Ok []
+         end) origins (fun kv => exists a, snd kv = Single a)) as [e [E P]].
+    - intros [[tn fn] o] Hkv. cbn [fst snd]. destruct o as [a|anc].
+      + exists []. split; [reflexivity|]. split; [eauto | reflexivity].
+      + assert (Hk : omap_get (tn, fn) origins <> None).
+        { intros Hn. apply omap_get_none in Hn. apply Hn. change (tn, fn) with (fst ((tn, fn), Multiple anc)).
+          now apply in_map. }
+        apply (i_org_keys _ _ _ _ I) in Hk. destruct Hk as [_ [t [Ht [Et [f [Hf Ef]]]]]].
+        assert (Eg : omap_get (tn, fn) (all_fields ts) = Some f) by (apply (fields_get ts U); eauto).
+        rewrite Eg. eexists. split; [reflexivity|]. split; [discriminate | intros [a Ha]; discriminate].
+    - exists e. split; [exact E|]. rewrite P. unfold unambiguous. split.
+      + intros H tn fn a b Oa Ob.
+        assert (Hk : omap_get (tn, fn) origins <> None).
+        { apply (i_org_keys _ _ _ _ I).
+          inversion Oa as [t fn' Ht Hft _ E1 E2 E3|t fn' i it a' Ht Hft _ _ _ _ E1 E2 E3]; subst;
+            (split; [now apply Hall | eauto]). }
+        destruct (omap_get (tn, fn) origins) as [o|] eqn:Eo; [|congruence]. apply omap_get_In in Eo.
+        destruct (H _ Eo) as [x Hx]. cbn in Hx. subst o.
+        destruct (i_org _ _ _ _ I tn fn _ Eo) as [Hs _]. cbn [oset] in Hs.
+        apply Hs in Oa, Ob. destruct Oa as [<-|[]], Ob as [<-|[]]. reflexivity.
+      + intros H [[tn fn] o] Hkv. cbn [snd]. destruct o as [a|anc]; [eauto|]. exfalso.
+        destruct (i_org _ _ _ _ I tn fn _ Hkv) as [Hs [a [b [Ha [Hb N]]]]]. cbn [oset] in Hs.
+        apply N. apply (H tn fn); now apply Hs.
+  Qed.
+
+  Theorem get_field_origins_spec :
+    exists r, get_field_origins ts = Ok r /\
+      match r with
+      | inl _ => ~ acyclic ts
+      | inr origins => acyclic ts /\
+                       exists e, check_ambiguous (all_fields ts) origins = Ok e /\ (e = [] <-> unambiguous)
+      end.
+  Proof.
+    unfold get_field_origins.
+    destruct (fo_loop_spec (fo_fuel ts) [] [] (initial_queue ts) (required_resolutions ts) inv_init)
+      as [done [origins [req [E I]]]].
+    { unfold fo_fuel. cbn. lia. }
+    rewrite E. cbn [bind fst snd].
+    destruct (first_circular req) as [e|] eqn:Ec.
+    - eexists. split; [reflexivity|]. cbn. intros A.
+      pose proof (proj2 (final_acyclic _ _ _ I) A) as A1.
+      pose proof (proj2 (final_all_done _ _ _ I) A1) as A2. congruence.
+    - eexists. split; [reflexivity|]. cbn.
+      pose proof (proj1 (final_all_done _ _ _ I) Ec) as A1. split.
+      + exact (proj1 (final_acyclic _ _ _ I) A1).
+      + exact (final_origins done origins req I A1).
+  Qed.
+End Origins.
+
+(* ====================================================================================== *)
+(* 6. Assembly: run_checks and Schema::new                                                  *)
+(* ====================================================================================== *)
+Section Assembly.
+  Variable ts : list tdef.
+  Hypothesis U : uniq ts.
+  Hypothesis D : forall t f g, In t ts -> In f (t_fields t) -> In g (fld_gtys f) -> gdepth g <= 30.
+  Hypothesis EF : forall t f a, In t ts -> In f (t_fields t) -> In a (f_args f) -> arg_has_enum a = false.
+  Hypothesis NB : forall t, In t ts -> builtin_scalar (t_name t) = false.
+  Variable qt : tdef.
+  Hypothesis Hq : In qt ts.
+
+  Definition all_checks : Prop :=
+    P_transitive ts /\ P_narrowed ts /\ P_present ts /\ P_invariants ts (t_name qt) /\
+    (forall f, In f (t_fields qt) -> builtin_scalar (gbase (f_ty f)) = false) /\
+    acyclic ts /\ unambiguous ts.
+
+  Lemma run_checks_spec :
+    exists r, run_checks qt ts (all_fields ts) = Ok r /\ (r = [] <-> all_checks).
+  Proof.
+    unfold run_checks, all_checks.
+    destruct (check_narrowing_spec ts U D) as [e2 [E2 P2]].
+    destruct (check_invariants_spec ts D EF (t_name qt)) as [e4 [E4 P4]].
+    destruct (check_root_spec ts D qt Hq) as [e5 [E5 P5]].
+    destruct (get_field_origins_spec ts U) as [fo [Efo Pfo]].
+    rewrite E2, E4, E5, Efo. cbn [bind].
+    pose proof (check_transitive_nil ts U) as P1. pose proof (check_required_fields_nil ts U) as P3.
+    destruct fo as [e|origins].
+    - cbn [bind fst snd].
+      set (errors := check_transitive ts ++ e2 ++ check_required_fields ts (all_fields ts) ++ e4 ++ e5 ++ [e]).
+      assert (Hne : errors <> []).
+      { unfold errors. intros H. repeat (apply app_eq_nil in H; destruct H as [_ H]). discriminate. }
+      exists errors. split; [destruct errors; [contradiction | reflexivity]|].
+      split; [contradiction | intros [_ [_ [_ [_ [_ [A _]]]]]]; contradiction].
+    - destruct Pfo as [A [e6 [E6 P6]]]. rewrite E6. cbn [bind fst snd].
+      set (errors := check_transitive ts ++ e2 ++ check_required_fields ts (all_fields ts) ++ e4 ++ e5 ++ e6).
+      exists errors. split; [now destruct errors|].
+      unfold errors. rewrite !app_nil_iff, P6, P1, P2, P3, P4, P5. tauto.
+  Qed.
+
+  Lemma field_ok_builtin_root f t : In t ts -> In f (t_fields t) -> field_ok ts (t_name qt) f ->
+    gbase (f_ty f) <> t_name qt.
+  Proof.
+    intros Ht Hf [_ [[Hb _]|[_ [_ [H _]]]]]; [|exact H]. intros E. rewrite E, (NB qt Hq) in Hb. discriminate.
+  Qed.
+
+  Lemma checks_iff_rules : all_checks <-> rules ts qt.
+  Proof.
+    split.
+    - intros [C1 [C2 [C3 [C4 [C5 [C6 C7]]]]]]. constructor.
+      + apply U.
+      + apply U.
+      + intros t i Ht Hi. destruct (C1 t i Ht Hi) as [it [H1 [H2 _]]]. eauto.
+      + intros t i it j Ht Hi Hd Hj. destruct (C1 t i Ht Hi) as [it' [H1 [H2 H3]]].
+        assert (it' = it). { destruct H1, Hd. apply (name_inj ts U); congruence. } subst it'.
+        destruct (H3 j Hj) as [->|H]; [|exact H]. exfalso.
+        destruct C6 as [rank Hr]. destruct Hd as [Hit Eit].
+        pose proof (Hr t i Ht Hi (ex_intro _ it (conj Hit Eit))) as R1.
+        pose proof (Hr it (t_name t) Hit Hj (ex_intro _ t (conj Ht eq_refl))) as R2.
+        rewrite Eit in R2. lia.
+      + exact C3.
+      + exact C2.
+      + intros t f Ht Hf. destruct (C4 t Ht) as [_ H]. destruct (H f Hf) as [_ [[Hb _]|[_ [Hd _]]]]; [now left | now right].
+      + intros t Ht. apply (C4 t Ht).
+      + intros t f Ht Hf. destruct (C4 t Ht) as [_ H]. apply (H f Hf).
+      + intros t f Ht Hf. destruct (C4 t Ht) as [_ H]. eapply field_ok_builtin_root; eauto.
+      + intros f Hf Hp. unfold is_property in Hp. rewrite (C5 f Hf) in Hp. discriminate.
+      + intros t f Ht Hf Hp. destruct (C4 t Ht) as [_ H]. destruct (H f Hf) as [_ [[_ Ha]|[Hb _]]]; [exact Ha|].
+        unfold is_property in Hp. congruence.
+      + intros t f Ht Hf Hp. destruct (C4 t Ht) as [_ H]. destruct (H f Hf) as [_ [[Hb _]|[_ [_ [_ [_ Hd]]]]]]; [|exact Hd].
+        exfalso. now apply Hp.
+      + intros t f a Ht Hf Ha. destruct (C4 t Ht) as [_ H]. destruct (H f Hf) as [_ [[_ Hn]|[_ [_ [_ [Hd _]]]]]].
+        * rewrite Hn in Ha. destruct Ha.
+        * now apply Hd.
+      + exact C6.
+      + exact C7.
+    - intros R. unfold all_checks. split; [|split; [|split; [|split; [|split; [|split]]]]].
+      + intros t i Ht Hi. destruct (r_implements_interfaces _ _ R t i Ht Hi) as [it [Hd Hk]].
+        exists it. split; [exact Hd|]. split; [exact Hk|]. intros j Hj. right.
+        exact (r_implements_transitive _ _ R t i it j Ht Hi Hd Hj).
+      + exact (r_inherited_narrowed _ _ R).
+      + exact (r_inherited_present _ _ R).
+      + intros t Ht. split; [exact (r_type_names _ _ R t Ht)|]. intros f Hf. split; [exact (r_field_names _ _ R t f Ht Hf)|].
+        destruct (builtin_scalar (gbase (f_ty f))) eqn:Eb.
+        * left. split; [reflexivity|]. exact (r_property_no_params _ _ R t f Ht Hf Eb).
+        * right. split; [reflexivity|]. assert (Np : ~ is_property f) by (unfold is_property; congruence).
+          split; [|split; [|split]].
+          -- destruct (r_field_types _ _ R t f Ht Hf) as [H|H]; [contradiction | exact H].
+          -- exact (r_no_edge_to_root _ _ R t f Ht Hf).
+          -- intros a Ha. exact (r_defaults _ _ R t f a Ht Hf Ha).
+          -- exact (r_edge_shape _ _ R t f Ht Hf Np).
+      + intros f Hf. destruct (builtin_scalar (gbase (f_ty f))) eqn:Eb; [|reflexivity].
+        exfalso. exact (r_root_only_edges _ _ R f Hf Eb).
+      + exact (r_acyclic _ _ R).
+      + exact (r_unambiguous _ _ R).
+  Qed.
+End Assembly.
+
+(* ---------- outside the known classes ---------- *)
+Lemma not_known_facts d : known d = false ->
+  exists q qt, doc_schemas d = [Some q] /\ find_type q (doc_types d) = Some qt /\ t_kind qt = VObject /\
+    existsb builtin_scalar (doc_scalars d) = false /\
+    existsb (fun t => builtin_scalar (t_name t)) (doc_types d) = false /\
+    NoDup (doc_scalars d) /\ NoDup (doc_directives d) /\
+    (forall t f g, In t (doc_types d) -> In f (t_fields t) -> In g (fld_gtys f) -> gdepth g <= 30) /\
+    (forall t f a, In t (doc_types d) -> In f (t_fields t) -> In a (f_args f) -> arg_has_enum a = false).
+Proof.
+  unfold known. rewrite !orb_false_iff.
+  intros [[[[[[[[[K1 K2] K3] K4] K5] K6] K7] K8] K9] K10].
+  unfold k_no_schema_block, k_dup_schema_block, k_schema_without_query, k_undefined_query_type,
+    k_interface_query_type in *.
+  destruct (doc_schemas d) as [|[q|] [|x r]] eqn:Es; try discriminate.
+  apply negb_false_iff in K7. unfold has_type in K7.
+  destruct (find_type q (doc_types d)) as [qt|] eqn:Ef; [|discriminate].
+  exists q, qt. split; [reflexivity|]. split; [exact Ef|].
+  split; [destruct (t_kind qt); [reflexivity | discriminate]|].
+  unfold k_builtin_scalar_redeclared in K4. apply orb_false_iff in K4. destruct K4 as [K4a K4b].
+  split; [exact K4a|]. split; [exact K4b|].
+  split; [apply nodupb_NoDup; unfold k_dup_scalar in K5; now apply negb_false_iff in K5|].
+  split; [apply nodupb_NoDup; unfold k_dup_directive in K6; now apply negb_false_iff in K6|].
+  split.
+  - intros t f g Ht Hf Hg. unfold k_list_depth in K9.
+    assert (Hin : In g (doc_gtys d)).
+    { unfold doc_gtys. apply in_flat_map. exists t. split; [exact Ht|]. apply in_flat_map. now exists f. }
+    destruct (Nat.ltb 30 (gdepth g)) eqn:El.
+    + exfalso. assert (H : existsb (fun g => Nat.ltb 30 (gdepth g)) (doc_gtys d) = true)
+        by (apply existsb_exists; now exists g). congruence.
+    + apply Nat.ltb_ge in El. exact El.
+  - intros t f a Ht Hf Ha. unfold k_enum_default in K10.
+    destruct (arg_has_enum a) eqn:Ea; [|reflexivity]. exfalso.
+    assert (H : existsb (fun t => existsb (fun f => existsb arg_has_enum (f_args f)) (t_fields t)) (doc_types d) = true).
+    { apply existsb_exists. exists t. split; [exact Ht|]. apply existsb_exists. exists f. split; [exact Hf|].
+      apply existsb_exists. now exists a. }
+    congruence.
+Qed.
+
+Lemma existsb_false_forall {A} (p : A -> bool) l : existsb p l = false -> forall x, In x l -> p x = false.
+Proof.
+  intros H x Hx. destruct (p x) eqn:E; [|reflexivity].
+  assert (existsb p l = true) by (apply existsb_exists; now exists x). congruence.
+Qed.
+
+(* Schema::new outside the known classes: an error list, empty exactly for valid schemas *)
+Lemma schema_new_spec d : known d = false ->
+  exists r, schema_new d = Ok r /\ (r = [] <-> valid_schema d).
+Proof.
+  intros K. destruct (not_known_facts d K) as [q [qt [Es [Ef [Ek [B1 [B2 [N1 [N2 [D EF]]]]]]]]]].
+  assert (Hne : d <> []) by (intros ->; discriminate).
+  unfold schema_new. destruct d as [|x0 d0]; [contradiction|]. set (d := x0 :: d0) in *.
+  pose proof (loop1_spec d st1_empty eq_refl (conj (NoDup_nil _) (fun t (H : In t []) => False_ind _ H))
+                B1 B2 N2 N1) as L.
+  assert (Hl : List.length (olist (s_schema st1_empty) ++ doc_schemas d) <= 1) by (rewrite Es; cbn; lia).
+  specialize (L Hl). clear Hl.
+  destruct L as [[Uq [s' [E1 [E2 [E3 E4]]]]]|[Uq [e E1]]].
+  - (* names are unique: the checks run *)
+    cbn [st1_empty s_types s_schema app olist] in *. rewrite E1. cbn [bind].
+    rewrite Es in E4. destruct (s_schema s') as [[q'|]|]; cbn in E4; try discriminate. injection E4 as ->.
+    rewrite E2, Ef, Ek, E3, E2.
+    pose proof (find_type_In _ _ _ Ef) as [Hqt Eqt].
+    destruct (run_checks_spec (doc_types d) Uq D EF (existsb_false_forall _ _ B2) qt Hqt) as [r [Er Pr]].
+    exists r. split; [exact Er|]. rewrite Pr, (checks_iff_rules (doc_types d) Uq (existsb_false_forall _ _ B2) qt Hqt).
+    unfold valid_schema. split.
+    + intros R. exists q, qt. auto.
+    + intros [q' [root [Es' [Hr [Er' [Ekr R]]]]]]. rewrite Es in Es'. injection Es' as <-.
+      assert (root = qt).
+      { pose proof (find_type_unique _ root (proj1 Uq) Hr) as H. rewrite Er', Ef in H. congruence. }
+      now subst root.
+  - (* a duplicate type or field name: the early error *)
+    rewrite E1. cbn [bind]. exists [e]. split; [reflexivity|]. split; [discriminate|].
+    intros [q' [root [_ [_ [_ [_ R]]]]]]. exfalso. apply Uq. split.
+    + exact (r_unique_types _ _ R).
+    + exact (r_unique_fields _ _ R).
+Qed.
